@@ -151,7 +151,9 @@ PY_STMTS = ['x = 1', 'pass', 'y = (1,\n      2)', 'foo(a,\n b)', 'z = [1,\n\n2,\
             # brackets and line breaks that must NOT reach the Indenter as brackets / newlines: inside strings, comments, after a backslash
             's = "(["', "t = '''a\n      (b\n'''", 'u = r"\\("', 'v = 1 + \\\n      2', 'w = 3  # comment with ( [ {', 'q = "a\\"b("', "k = ')' + x",
             'm = (\n    "]",  # )\n    1)', 'n = f(a)[0]["k"]', 'o = {"a": [1, (2,\n 3)]}', 'r = """x\n"""  # after', 'e = 1 if a else (2)']
-PY_HEADS = ['if a:', 'while b:', 'def f(a, b):', 'for i in (1,\n   2):', 'class C:', 'else:', 'try:', 'with open(f) as g:']
+PY_HEADS = ['if a:', 'while b:', 'def f(a, b):', 'for i in (1,\n   2):', 'class C:', 'else:', 'try:', 'with open(f) as g:',
+            '@dec\ndef g():', 'async def h():', 'class D(Base,\n        Mixin):', 'elif b:', 'except (A,\n        B) as e:', 'finally:', 'match x:', 'case [1,\n      2]:', 'if (a and\n    b):',
+            'def k(a=(1, 2), *b, **c) -> int:', 'while f(x)[0]:', 'lambda_user = lambda q: q\nif q:']
 
 
 def gen_python(rng, bad_p=0.1):
@@ -221,7 +223,7 @@ class C18(Check):
                            'CPython tokenize (independent oracle)'],
                   'simulated': ['the consumer (stops, closes, throws at a seeded token index)', 'the producer (synthetic token lists; lexer failing mid-stream)'],
                   'stubbed': [], 'not_exercised': ['interleaved consumption of two live streams through one Indenter (concurrent use of a stateful post-lexer, excluded by the statement of C10)']}
-    ASSUMPTIONS = ['the model is written from the statement; tabs count tab_len; the newline token is itself dropped inside brackets',
+    ASSUMPTIONS = ['generated Python need not be valid Python: the Indenter and CPython\'s tokenizer both work below the grammar (parse-mode streams of invalid programs simply end with a parser error, one of the abnormal endings)', 'the model is written from the statement; tabs count tab_len; the newline token is itself dropped inside brackets',
                    'CPython cross-check only on sources whose indentation is purely spaces or purely tabs (where "tabs counted as tab_len" and CPython\'s rules coincide) and whose first line is not indented (no newline token precedes it); sources may end without a line break (last line code, code + comment, a comment, or blanks only)',
                    'an unmatched closing bracket is outside the statement: lark raises AssertionError there, the model reports unmatched-close, nothing after it is compared']
 
